@@ -66,6 +66,14 @@ def eval_vector(case):
     if set(adms) != want_ids:
         v.append(('partition-ids', f'returned models for {sorted(adms)}, the annotations name {sorted(want_ids)} {ctx}'))
     stitch = {n for n, d in nodes0.items() if d.get('StitchNode') == 'true'}
+
+    def signature(models):
+        sig = {}
+        for did_, adm_ in models.items():
+            _, nn, ee = snapshot(adm_.graph_id)
+            sig[did_] = ({n: {k: x for k, x in d.items() if k != 'GraphID'} for n, d in nn.items()}, ee)
+        return sig
+    first_sig = signature(adms)
     for did, adm in adms.items():
         r, nodes, edges = snapshot(adm.graph_id)
         c2 = f'{ctx} [partition {did}]'
@@ -139,6 +147,15 @@ def eval_vector(case):
                         v.append(('rekey/other-property-changed', f'{n}.{k} {c2}'))
         except Exception as e:
             v.append((f'rekey/raises/{type(e).__name__}', f'{e} {c2}'))
+    # history: partitioning the same (untouched) model again, after the partitions were re-keyed, gives the same partitions
+    try:
+        again = arm.generate_adms()
+        if signature(again) != first_sig:
+            sig2 = signature(again)
+            what = sorted(set(sig2) ^ set(first_sig)) or sorted(d for d in first_sig if sig2.get(d) != first_sig[d])
+            v.append(('repeat/partitions-differ', f'a second generate_adms() on the unchanged model differs from the first for {what} {ctx}'))
+    except Exception as e:
+        v.append((f'repeat/raises/{type(e).__name__}', f'{e} {ctx}'))
     # the aggregate model is left untouched
     _, nodes1, edges1 = snapshot(gid)
     if nodes1 != nodes0 or edges1 != edges0:
